@@ -41,8 +41,18 @@ def programs(draw, max_rel):
 
     def expr(scope_cols, depth=1):
         # scope_cols: list of (src_index, colname, prov)
-        k = draw(st.integers(0, 7))
+        k = draw(st.integers(0, 9))
         i, c, p = draw(st.sampled_from(scope_cols))
+        if k >= 8 and depth > 0:
+            # scalar subquery whose body is a set operation / reads a derived table: every arm's projection flows in
+            t = draw(st.sampled_from(sorted(BASE)))
+            sc = draw(st.sampled_from(BASE[t]))
+            if k == 8:
+                t2 = draw(st.sampled_from(sorted(BASE)))
+                sc2 = draw(st.sampled_from(BASE[t2]))
+                return ("scalar_setop", t, sc, t2, sc2, draw(st.sampled_from(("UNION ALL", "UNION", "INTERSECT", "EXCEPT")))), frozenset({(t, sc), (t2, sc2)})
+            return ("scalar_derived", t, sc), frozenset({(t, sc)})
+        k = min(k, 7)
         if k < 3 or depth <= 0:
             return ("col", i, c), p
         if k == 3:
@@ -74,6 +84,10 @@ def programs(draw, max_rel):
         if star:
             # SELECT * / SELECT x.* : output columns are the sources' columns in order (duplicates keep the first)
             which = draw(st.integers(0, len(srcs)))  # len(srcs) => bare *
+            allc = [c for s_ in srcs for c in cols_of(s_)]
+            if which == len(srcs) and len(allc) != len(set(allc)):
+                # a derived table exposing one name twice makes later references ambiguous (invalid in standard SQL): out of domain
+                which = 0
             proj, outs = [], []
             for i, s in enumerate(srcs):
                 if which == len(srcs) or which == i:
@@ -168,6 +182,12 @@ def render(prog, mode, perm):
                     al = alias()
                     corr = f" WHERE {al}.{BASE[e[1]][0]} = {ex(e[3])}" if e[3] else ""
                     return f"(SELECT MAX({al}.{e[2]}) FROM {e[1]} AS {al}{corr})"
+                if k == "scalar_setop":
+                    a1, a2 = alias(), alias()
+                    return f"(SELECT {a1}.{e[2]} FROM {e[1]} AS {a1} {e[5]} SELECT {a2}.{e[4]} FROM {e[3]} AS {a2} LIMIT 1)"
+                if k == "scalar_derived":
+                    a1, a2 = alias(), alias()
+                    return f"(SELECT MAX({a2}.{e[2]}) FROM (SELECT {a1}.{e[2]} FROM {e[1]} AS {a1}) AS {a2})"
                 raise ValueError(k)
 
             if a["star"] is not None:
